@@ -49,6 +49,9 @@ type dtEval struct {
 	// occurrence numbering (opt-in): the same text at different source positions is a different atom
 	occ     bool
 	occSeen map[string][]token.Pos
+	// bodies: source ranges of the function's bodies (declaration and literals); occurrences are ranked within the
+	// innermost body that contains them, so that an unrelated literal (a deferred logger) does not shift the numbering
+	bodies [][2]token.Pos
 }
 
 func newDtEval(e *Env) *dtEval {
@@ -95,6 +98,19 @@ func (ev *dtEval) atomName(base string, pos token.Pos, collecting bool) string {
 	if !ev.occ {
 		return base
 	}
+	if os.Getenv("DT_DEBUG") != "" {
+		_ = os.Getenv
+	}
+	// innermost body containing pos
+	lo, hi := token.NoPos, token.NoPos
+	for _, b := range ev.bodies {
+		if b[0] <= pos && pos < b[1] && (lo == token.NoPos || (b[0] >= lo && b[1] <= hi)) {
+			lo, hi = b[0], b[1]
+		}
+	}
+	base0 := base
+	base = fmt.Sprintf("%s@%d", base0, int(lo)) // internal key; the visible name stays base0#k
+	defer func() { _ = base0 }()
 	ps := ev.occSeen[base]
 	found := false
 	for _, p := range ps {
@@ -107,18 +123,16 @@ func (ev *dtEval) atomName(base string, pos token.Pos, collecting bool) string {
 		sort.Slice(ps, func(i, j int) bool { return ps[i] < ps[j] })
 		ev.occSeen[base] = ps
 	}
+	// positions of this body that are nested literals' do not count: they belong to their own (inner) body
 	if len(ps) <= 1 {
-		if !collecting && os.Getenv("DT_DEBUG") != "" {
-			println("DT atomName base-only", base, len(ps), int(pos))
-		}
-		return base
+		return base0
 	}
 	for i, p := range ps {
 		if p == pos {
-			return fmt.Sprintf("%s#%d", base, i+1)
+			return fmt.Sprintf("%s#%d", base0, i+1)
 		}
 	}
-	return base
+	return base0
 }
 
 func isIntLike(t types.Type) bool {
